@@ -6,14 +6,18 @@ package main
 
 import (
 	"bytes"
+	"crypto/sha256"
 	"encoding/binary"
 	"fmt"
 	"io"
 	"runtime"
 	"strconv"
 	"strings"
+	"time"
 
 	"crypto/elliptic"
+
+	"golang.org/x/crypto/ed25519"
 
 	"github.com/ontio/ontology-crypto/ec"
 	"github.com/ontio/ontology-crypto/keypair"
@@ -23,6 +27,7 @@ import (
 	"github.com/ontio/ontology/common/config"
 	vconfig "github.com/ontio/ontology/consensus/vbft/config"
 	"github.com/ontio/ontology/core/payload"
+	"github.com/ontio/ontology/core/signature"
 	ct "github.com/ontio/ontology/core/types"
 	pc "github.com/ontio/ontology/p2pserver/common"
 	"github.com/ontio/ontology/p2pserver/message/types"
@@ -35,7 +40,7 @@ var cmds = []string{"ping", "pong", "verack", "getaddr", "addr", "getheaders", "
 	"findnode", "findnodeack", "version", "members", "getmembers", "headers", "zzunknown",
 	"block", "tx", "consensus", "updatekadid", "offline"}
 
-var opaqueCmd = map[string]bool{"block": true, "tx": true, "consensus": true, "updatekadid": true, "offline": true}
+var opaqueCmd = map[string]bool{"block": true, "tx": true, "offline": true}
 
 // ---------- byte builders (independent of the code under test) ----------
 
@@ -204,20 +209,36 @@ func validPayload(r *hx.Rand, cmd string, irr bool, loose bool) []byte {
 		}
 		return out
 	case "getmembers":
-		ts := uint64(0)
-		if irr {
-			ts = r.U64() // crypto branch: explored only
+		if !irr {
+			return cat(r.Bytes(20), r.Bytes(20), le(4, 0))
 		}
-		out := cat(r.Bytes(20), r.Bytes(20), le(4, ts))
-		if ts != 0 {
-			out = cat(out, varbytes(r.Bytes(33)), varbytes(r.Bytes(64)))
+		// signed request.  Timestamps are far from the clock (before 2017 = expired, after 2096 = fresh) so that the
+		// wall-clock test inside Deserialization gives the same answer whenever the line is replayed.
+		ts := uint64(4000000000 + r.Intn(200000000))
+		if r.Chance(25) {
+			ts = uint64(1 + r.Intn(1500000000))
+		}
+		head := cat(r.Bytes(20), r.Bytes(20), le(4, ts))
+		switch r.Intn(5) {
+		case 0: // unparsable key
+			return cat(head, varbytes(r.Bytes(33)), varbytes(r.Bytes(64)))
+		case 1: // good key, garbage signature
+			return cat(head, varbytes(edPub()), varbytes(r.Bytes(65)))
+		case 2: // P-256 key, garbage signature
+			return cat(head, varbytes(pubBytes()), varbytes(r.Bytes(64)))
+		default: // correctly signed (Ed25519 signatures are deterministic)
+			return cat(head, varbytes(edPub()), varbytes(edSign(head)))
+		}
+	case "headers":
+		n := r.Intn(4)
+		if irr {
+			n = 1 + r.Intn(3)
+		}
+		out := le(4, uint64(n))
+		for i := 0; i < n; i++ {
+			out = cat(out, headerBytes(r))
 		}
 		return out
-	case "headers":
-		if irr {
-			return cat(le(4, 1), headerBytes(r))
-		}
-		return le(4, 0)
 	case "consensus":
 		return consensusBytes(r, irr)
 	case "tx":
@@ -246,10 +267,13 @@ func validPayload(r *hx.Rand, cmd string, irr bool, loose bool) []byte {
 		ccm.Serialization(sk)
 		return cat(out, []byte{1}, sk.Bytes())
 	case "updatekadid":
-		if irr {
+		switch {
+		case irr && r.Bool():
 			return varbytes(r.Bytes(33))
+		case irr:
+			return varbytes(pubBytes()) // a well-formed key that fails the kad-id difficulty test
 		}
-		return varbytes(pubBytes()) // a well-formed key that (almost surely) fails the kad-id difficulty test
+		return varbytes(kadPub) // passes the 18-bit difficulty test (found by a one-off search)
 	case "offline":
 		return r.Bytes(r.Intn(120))
 	default:
@@ -258,6 +282,25 @@ func validPayload(r *hx.Rand, cmd string, irr bool, loose bool) []byte {
 }
 
 var testPub keypair.PublicKey
+
+// P-256 key (scalar 0x11‖0…‖146685) whose double SHA-256 starts with 18 zero bits: a valid kad id
+var kadPub = hx.MustUnhex("03fab3ee67618db610fa99bf8c1e828d41e328048b276d1f53154b6295d53cab7f")
+
+var edKey = ed25519.NewKeyFromSeed(bytes.Repeat([]byte{7}, 32))
+
+func edPub() []byte { return keypair.SerializePublicKey(edKey.Public().(ed25519.PublicKey)) }
+
+func edSign(data []byte) []byte {
+	sg, err := sig.Sign(sig.SHA512withEDDSA, edKey, data, nil)
+	if err != nil {
+		panic(err)
+	}
+	b, err := sig.Serialize(sg)
+	if err != nil {
+		panic(err)
+	}
+	return b
+}
 
 func pubBytes() []byte {
 	if testPub == nil {
@@ -416,7 +459,19 @@ func genPayload(r *hx.Rand, cmd string, loose bool) []byte {
 			}
 			return out
 		case "headers":
-			return cat(le(4, hostile32[r.Intn(len(hostile32))]), r.Bytes(r.Intn(8)))
+			c := hostile32[r.Intn(len(hostile32))]
+			out := le(4, c)
+			k := r.Intn(3)
+			if uint64(k) > c && !loose {
+				k = int(c)
+			}
+			for i := 0; i < k; i++ {
+				out = cat(out, headerBytes(r))
+			}
+			if r.Chance(30) {
+				out = cat(out, r.Bytes(r.Intn(8)))
+			}
+			return out
 		case "version":
 			// hostile soft-version length (falls back to "" : a known class)
 			p := validPayload(r, cmd, false, false)
@@ -439,6 +494,152 @@ func genPayload(r *hx.Rand, cmd string, loose bool) []byte {
 		}
 		return p
 	}
+}
+
+// ---------- oracle: values of the calls out of p2pserver/message/types, computed with the real callees ----------
+
+type hdrEntry struct {
+	unread, n int
+	ok        bool
+	re        []byte
+}
+
+// what core/types.Header.Deserialization does on the successive headers of a `headers` payload
+func hdrOracle(p []byte) (out []hdrEntry) {
+	if len(p) < 4 {
+		return nil
+	}
+	count := binary.LittleEndian.Uint32(p[0:4])
+	off := 4
+	for i := uint32(0); i < count && len(out) < 40; i++ {
+		src := common.NewZeroCopySource(p[off:])
+		var h ct.Header
+		if err := h.Deserialization(src); err != nil {
+			return append(out, hdrEntry{unread: len(p) - off})
+		}
+		s := common.NewZeroCopySink(nil)
+		h.Serialization(s)
+		out = append(out, hdrEntry{unread: len(p) - off, n: int(src.Pos()), ok: true, re: s.Bytes()})
+		off += int(src.Pos())
+	}
+	return out
+}
+
+// an independent, strict var-bytes reader (the model stops on anything irregular before it consults the oracle)
+func miniVarBytes(p []byte, off int) (d []byte, next int, ok bool) {
+	if off >= len(p) {
+		return nil, 0, false
+	}
+	n, w := uint64(p[off]), 1
+	switch p[off] {
+	case 0xfd:
+		w = 3
+	case 0xfe:
+		w = 5
+	case 0xff:
+		w = 9
+	}
+	if off+w > len(p) {
+		return nil, 0, false
+	}
+	if w > 1 {
+		b := make([]byte, 8)
+		copy(b, p[off+1:off+w])
+		n = binary.LittleEndian.Uint64(b)
+	}
+	if n > uint64(len(p)-off-w) {
+		return nil, 0, false
+	}
+	return p[off+w : off+w+int(n)], off + w + int(n), true
+}
+
+func kadValid(canon []byte) bool {
+	a := sha256.Sum256(canon)
+	b := sha256.Sum256(a[:])
+	for i := 0; i < pc.Difficulty; i++ {
+		if b[i/8]>>(7-uint(i%8))&1 != 0 {
+			return false
+		}
+	}
+	return true
+}
+
+func oracleFor(cmd []byte, p []byte) string {
+	var groups []string
+	pkEntry := func(in []byte) (canon []byte) {
+		k, err := keypair.DeserializePublicKey(in)
+		if err != nil {
+			groups = append(groups, "pk="+hx.Hex(in)+":!")
+			return nil
+		}
+		canon = keypair.SerializePublicKey(k)
+		groups = append(groups, "pk="+hx.Hex(in)+":"+hx.Hex(canon))
+		return canon
+	}
+	switch string(cmd) {
+	case "consensus":
+		if len(p) < 46 {
+			break
+		}
+		if _, next, ok := miniVarBytes(p, 46); ok {
+			if pkb, _, ok := miniVarBytes(p, next); ok {
+				pkEntry(pkb)
+			}
+		}
+	case "updatekadid":
+		if pkb, _, ok := miniVarBytes(p, 0); ok {
+			if canon := pkEntry(pkb); canon != nil {
+				groups = append(groups, "kad="+hx.B(kadValid(canon)))
+			}
+		}
+	case "getmembers":
+		if len(p) < 44 || binary.LittleEndian.Uint32(p[40:44]) == 0 {
+			break
+		}
+		ts := binary.LittleEndian.Uint32(p[40:44])
+		pkb, next, ok := miniVarBytes(p, 44)
+		if !ok {
+			break
+		}
+		canon := pkEntry(pkb)
+		groups = append(groups, "exp="+hx.B(uint32(time.Now().Add(-time.Hour).Unix()) > ts))
+		if canon != nil {
+			if sg, _, ok := miniVarBytes(p, next); ok {
+				k, _ := keypair.DeserializePublicKey(pkb)
+				groups = append(groups, "sig="+hx.B(signature.Verify(k, p[:44], sg) == nil))
+			}
+		}
+	case "headers":
+		var es []string
+		for _, e := range hdrOracle(p) {
+			if e.ok {
+				es = append(es, fmt.Sprintf("%d:%d:%s", e.unread, e.n, hx.Hex(e.re)))
+			} else {
+				es = append(es, fmt.Sprintf("%d:!", e.unread))
+			}
+		}
+		if len(es) > 0 {
+			groups = append(groups, "hdr="+strings.Join(es, ","))
+		}
+	}
+	if len(groups) == 0 {
+		return ""
+	}
+	return " o:" + strings.Join(groups, "/")
+}
+
+// append the oracle field to a D or F line
+func withOracle(line string) string {
+	f := strings.Fields(line)
+	switch {
+	case len(f) == 3 && f[0] == "D":
+		return line + oracleFor(hx.MustUnhex(f[1]), hx.MustUnhex(f[2]))
+	case len(f) == 4 && f[0] == "F" && f[3] != "-":
+		s := hx.MustUnhex(f[2])
+		l := int(binary.LittleEndian.Uint32(s[16:20]))
+		return line + oracleFor(bytes.TrimRight(s[4:16], "\x00"), s[24:24+l])
+	}
+	return line
 }
 
 func ckOf(stream []byte) string {
@@ -465,7 +666,9 @@ func gen(r *hx.Rand, tier string, i int) string {
 	cb := cmdBytes(r, cmd)
 	// block/tx decoders are explored only; their trailing-bytes / old-format classes are recorded in findings/C24.json but
 	// not generated here (see the report), so `loose` is never set for them
-	p := genPayload(r, cmd, r.Chance(6))
+	// updatekadid became decodable in the harness with the kad-valid key; its trailing-bytes class is listed in
+	// findings/C24.json (pending merge) and not generated until then
+	p := genPayload(r, cmd, r.Chance(6) && cmd != "updatekadid")
 	switch r.Intn(10) {
 	case 0, 1, 2, 3, 4, 5:
 		return "D " + hx.Hex(cb) + " " + hx.Hex(p)
@@ -593,7 +796,17 @@ func render(m types.Message, re []byte) string {
 		}
 		return fmt.Sprintf("members n=%d %s", len(v.Members), semi(l))
 	case *types.SubnetMembersRequest:
-		return fmt.Sprintf("getmembers from=%s to=%s ts=%d", hx.Hex(pidBytes(v.From)), hx.Hex(pidBytes(v.To)), v.Timestamp)
+		var pk []byte
+		if v.PubKey != nil {
+			pk = keypair.SerializePublicKey(v.PubKey)
+		}
+		return fmt.Sprintf("getmembers from=%s to=%s ts=%d pk=%s sig=%s", hx.Hex(pidBytes(v.From)), hx.Hex(pidBytes(v.To)), v.Timestamp, hx.Hex(pk), hx.Hex(v.Sig))
+	case *types.Consensus:
+		c := v.Cons
+		return fmt.Sprintf("consensus v=%d prev=%s h=%d bk=%d ts=%d data=%s owner=%s sig=%s", c.Version, hx.Hex(c.PrevHash[:]), c.Height, c.BookkeeperIndex,
+			c.Timestamp, hx.Hex(c.Data), hx.Hex(keypair.SerializePublicKey(c.Owner)), hx.Hex(c.Signature))
+	case *types.UpdatePeerKeyId:
+		return fmt.Sprintf("updatekadid pk=%s", hx.Hex(keypair.SerializePublicKey(v.KadKeyId.PublicKey)))
 	case *types.BlkHeader:
 		return fmt.Sprintf("headers n=%d", len(v.BlkHdr))
 	case *types.UnknownMessage:
@@ -726,9 +939,15 @@ func run(magic uint32, stream []byte, line string) hx.Result {
 	if !hdrOK && rr.err == nil {
 		fail("header-check-missing:"+why, "message accepted although header check '"+why+"' must fail")
 	}
-	opaque := hdrOK && (opaqueCmd[name] ||
-		(name == "getmembers" && len(payload) >= 44 && binary.LittleEndian.Uint32(payload[40:44]) != 0) ||
-		(name == "headers" && len(payload) >= 4 && binary.LittleEndian.Uint32(payload[0:4]) != 0))
+	opaque := hdrOK && opaqueCmd[name]
+	if hdrOK && name == "headers" {
+		// tie for Oracle.wf: the embedded header decoder consumes at least a minimal header and no more than it was given
+		for _, e := range hdrOracle(payload) {
+			if e.ok && (e.n < 139 || e.n > e.unread) {
+				fail("oracle-wf:hdr", fmt.Sprintf("core/types.Header.Deserialization consumed %d of %d bytes", e.n, e.unread))
+			}
+		}
+	}
 	if rr.err != nil {
 		res.Out = errKind(rr.err)
 		res.Kind = name + ":" + res.Out
@@ -775,7 +994,7 @@ func run(magic uint32, stream []byte, line string) hx.Result {
 		fail(class, "re-serialization of the decoded message differs from the payload")
 	}
 	// fixpoint: decode(encode m) = m and encode(decode(encode m)) = encode m
-	if name != "getmembers" || !opaque { // (a signed request re-verifies against the clock; skip the second pass there)
+	{
 		config.DefConfig.P2PNode.NetworkMagic = defMagic
 		r2 := readOnce(goodFrame(cmd, re))
 		switch {
@@ -820,10 +1039,10 @@ func parseAddrEntries(s string) *types.Addr {
 func exec(line string) hx.Result {
 	f := strings.Fields(line)
 	switch {
-	case len(f) == 3 && f[0] == "D":
+	case (len(f) == 3 || len(f) == 4) && f[0] == "D": // an optional last field carries the oracle for the model; the real code does not need it
 		cmd, p := hx.MustUnhex(f[1]), hx.MustUnhex(f[2])
 		return run(defMagic, goodFrame(cmd, p), line)
-	case len(f) == 4 && f[0] == "F":
+	case (len(f) == 4 || len(f) == 5) && f[0] == "F":
 		m, _ := strconv.ParseUint(f[1], 10, 32)
 		return run(uint32(m), hx.MustUnhex(f[2]), line)
 	case len(f) == 2 && f[0] == "O":
@@ -946,7 +1165,7 @@ func genAll(r *hx.Rand, tier string, i int) string {
 	if r.Chance(4) {
 		return genE(r)
 	}
-	return gen(r, tier, i)
+	return withOracle(gen(r, tier, i))
 }
 
 func corpus() []string {
@@ -993,13 +1212,21 @@ func corpus() []string {
 	return out
 }
 
+func corpusWithOracles() []string {
+	var out []string
+	for _, l := range corpus() {
+		out = append(out, withOracle(l))
+	}
+	return out
+}
+
 func main() {
 	hx.Main(hx.Prop{
 		ID:      "C24",
 		Rule:    "payloads for all 21 commands + unknown ones (valid / one non-canonical detail / truncated / trailing bytes / hostile counts 0,cap,cap+1,2^31,2^63,2^64-1 / random) framed and read by the real types.ReadMessage in a child process; raw streams with mutated magic, length, checksum, command, truncations and random bytes; encode lines for Addr/Inv. Non-trivial = distinct op line; kinds = <command>:<outcome>",
 		Gen:     genAll,
 		Exec:    exec,
-		Corpus:  corpus(),
+		Corpus:  corpusWithOracles(),
 		Isolate: true,
 		N:       map[string]int{"quick": 12000, "thorough": 400000},
 	})
